@@ -283,6 +283,9 @@ func c19E2E(env *fw.Env) {
 			if thr == 1 { // one uncredited timeout is fatal here: both roles
 				add(c19Case{Scenario: "alive-slow-handler", Active: (thr+rep)%2 == 1, Threshold: thr, Suppress: true})
 			}
+			// life shown by a frame that makes the LOCAL side write something before the probe's timeout is evaluated
+			add(c19Case{Scenario: "alive-own-linktest", Active: (thr+rep)%2 == 1, Threshold: thr, Suppress: true})
+			add(c19Case{Scenario: "alive-primary-answered", Active: (thr+rep)%2 == 0, Threshold: thr, Suppress: true})
 			if thr >= 2 {
 				// a dead peer, but the LOCAL side writes a one-way message after every probe timeout: our own
 				// traffic may postpone the next probe, it is never proof of peer life
@@ -315,7 +318,7 @@ func c19One(env *fw.Env, cs c19Case) {
 	if cs.Scenario == "chatty" {
 		interval = 600 * time.Millisecond // the premise (every gap < interval/2) must survive a loaded machine
 	}
-	if cs.Scenario == "alive-slow-handler" {
+	if cs.Scenario == "alive-slow-handler" || cs.Scenario == "alive-own-linktest" || cs.Scenario == "alive-primary-answered" {
 		interval, t6 = 200*time.Millisecond, 300*time.Millisecond
 	}
 	sup := cs.Suppress
@@ -340,6 +343,10 @@ func c19One(env *fw.Env, cs c19Case) {
 				_ = c.Send(peer.LinktestRsp(f.Sys))
 			case 2:
 				_ = c.Send(peer.Data(1, 1, false, 0x1234, 0x19190000|dataSeq.Add(1), nil))
+			case 3: // life = the peer's OWN Linktest.req, which the library answers: a frame of ours leaves after the life was seen
+				_ = c.Send(peer.LinktestReq(0x19300000 | dataSeq.Add(1)))
+			case 4: // life = a W-bit primary that the application answers from its handler
+				_ = c.Send(peer.Data(1, 3, true, 0x1234, 0x19400000|dataSeq.Add(1), nil))
 			}
 
 			return false
@@ -354,6 +361,16 @@ func c19One(env *fw.Env, cs c19Case) {
 			if m.Stream() == 1 && m.Function() == 1 {
 				env.Event("slow_handler_invocations", 1)
 				time.Sleep(t6 + t6/4)
+			}
+		})
+	}
+	if cs.Scenario == "alive-primary-answered" {
+		rg.Conn.AddDataMessageHandler(func(m *hsms.DataMessage, ep hsms.SECS2Endpoint) {
+			if m.Stream() == 1 && m.Function() == 3 && m.WaitBit() {
+				ctx, cancel := context.WithTimeout(context.Background(), time.Second)
+				_ = ep.ReplyDataMessage(ctx, m, secs2.A("answer"))
+				cancel()
+				env.Event("primaries_answered_by_handler", 1)
 			}
 		})
 	}
@@ -449,8 +466,14 @@ func c19One(env *fw.Env, cs c19Case) {
 		if cm.LinktestRecvCount() != uint64(answers.Load()) || cm.LinktestErrCount() != 0 {
 			fail("linktest-counters-answering", fmt.Sprintf("ControlMetrics send=%d recv=%d err=%d; the peer answered %d of %d probes", cm.LinktestSendCount(), cm.LinktestRecvCount(), cm.LinktestErrCount(), answers.Load(), probes.Load()))
 		}
-	case "alive-slow-handler":
+	case "alive-slow-handler", "alive-own-linktest", "alive-primary-answered":
 		mode.Store(2)
+		if cs.Scenario == "alive-own-linktest" {
+			mode.Store(3)
+		}
+		if cs.Scenario == "alive-primary-answered" {
+			mode.Store(4)
+		}
 		waitFor(30*time.Second, func() bool { return probes.Load() >= int64(3*cs.Threshold+2) || pc.WaitClosed(time.Millisecond) })
 		if _, err := pc.Barrier(10 * time.Second); err != nil {
 			// premise: the peer's own turnaround (probe parsed -> data frame written) stayed well inside T6
@@ -461,7 +484,7 @@ func c19One(env *fw.Env, cs c19Case) {
 				}
 				turn := time.Duration(-1)
 				for _, s := range sent {
-					if s.Frame.IsData() && s.At >= ev.At {
+					if (s.Frame.IsData() || s.Frame.SType == peer.STLinktestReq) && s.At >= ev.At {
 						turn = s.At - ev.At
 						break
 					}
@@ -472,10 +495,24 @@ func c19One(env *fw.Env, cs c19Case) {
 					return
 				}
 			}
+			if cs.Scenario == "alive-primary-answered" {
+				fail("alive-peer-dropped-primary-answered", fmt.Sprintf("suppression on, threshold %d: the peer never answers a probe but sends a W-bit primary right after every probe (interval %v, T6 %v), which the application's handler answers: life was shown inside every probe's window, yet the link was dropped after %d probes: %v", cs.Threshold, interval, t6, probes.Load(), err))
+				return
+			}
+			if cs.Scenario == "alive-own-linktest" {
+				fail("alive-peer-dropped-own-linktest", fmt.Sprintf("suppression on, threshold %d: the peer never answers a probe but sends its own Linktest.req right after every probe (interval %v, T6 %v), which the library answers: life was shown inside every probe's window, yet the link was dropped after %d probes: %v", cs.Threshold, interval, t6, probes.Load(), err))
+				return
+			}
 			fail("alive-peer-dropped-slow-handler", fmt.Sprintf("suppression on, threshold %d: the peer sent a data frame right after every probe; the local handler for it takes %v (T6 %v), so the frame had arrived but was still being handled when the probe timed out; the link was dropped after %d probes: %v", cs.Threshold, t6+t6/4, t6, probes.Load(), err))
 			return
 		}
-		env.Event("alive_peer_kept_slow_handler", 1)
+		if cs.Scenario == "alive-own-linktest" {
+			env.Event("alive_peer_kept_own_linktest", 1)
+		} else if cs.Scenario == "alive-primary-answered" {
+			env.Event("alive_peer_kept_primary_answered", 1)
+		} else {
+			env.Event("alive_peer_kept_slow_handler", 1)
+		}
 	case "alive-not-answering":
 		mode.Store(2)
 		if cs.Suppress {
